@@ -3,10 +3,10 @@
 
     c17run <states> <onExc> <async> <resolve table> <models> <history>
         states   : list of (s, timeout, action?, raises)
-        resolve  : list of (s, e, kind, exits, enters, dest)   kind 0 = internal, 1 = move
+        resolve  : list of (s, e, kind, prog: list of (enter?, state), dest, raises)   kind 0 = internal, 1 = move
         models   : list of (m, initial state)
         history  : list of ops: 0 <early: list of (m, e)>  |  1 m e
-      → `T <records> L <leaked> X <tie>`
+      → `T <records> L <leaked> X <tie> C <(model, final state) …>`
     c17mon <timeouts: list of (s, timeout)> <routes> <records>   → ok | reject
       (the verified monitor `C17.accepts` on an observed trace)
     c17ctor <timeout> <on_timeout: 0 | 1 n>  → `ok t n` | `AttributeError`
@@ -48,8 +48,9 @@ def stateRow : P StateRow := do
 
 def resolveRow : P (Nat × Nat × Step) := do
   let s ← nat; let e ← nat; let k ← nat
-  let xs ← nats; let ns ← nats; let d ← nat
-  pure (s, e, if k = 0 then .stay else .move xs ns d)
+  let prog ← list (do let b ← bool; let x ← nat; pure (b, x))
+  let d ← nat; let r ← bool
+  pure (s, e, if k = 0 then .stay else .move prog d r)
 
 def op : P Op := do
   let k ← nat
@@ -78,7 +79,8 @@ def runCase : P String := do
   let h ← list op
   let cur := fun m => ((models.find? (fun p => p.1 = m)).map (·.2)).getD 0
   let st : Timeout.St := Timeout.run (mkCfg rows onExc async tbl) h (Timeout.St.init cur)
-  pure s!"T {joinNats (st.log.length :: st.log.flatMap encRec)} L {if st.leaked then 1 else 0} X {if st.tie then 1 else 0}"
+  let curs := models.flatMap fun p => [p.1, st.cur p.1]
+  pure s!"T {joinNats (st.log.length :: st.log.flatMap encRec)} L {if st.leaked then 1 else 0} X {if st.tie then 1 else 0} C {joinNats curs}"
 
 def monCase : P String := do
   let ts ← list (do let s ← nat; let t ← nat; pure (s, t))
